@@ -39,7 +39,56 @@ func runC07(c C07Case, ev *Evid) (fs []Finding) {
 	methodOK := c.Method >= 1 && c.Method <= 6
 	xffOK := xffValid(xff)
 	if lv == Grey {
-		ev.Discard("Z3-representability-grey-zone")
+		// Z3: no verdict of its own, but "all entry points agree with each other" still holds there
+		if !methodOK || !xffOK {
+			ev.Discard("Z3-representability-grey-zone")
+			return nil
+		}
+		got := map[string]bool{}
+		var al wt.ArchiveInfoList
+		var parts []string
+		printable := true
+		for _, a := range c.List {
+			al = append(al, wt.NewArchiveInfo(wt.Duration(a.Step), uint32(a.Points)))
+			if a.Step*a.Points > math.MaxInt32 {
+				printable = false // the text syntax must refuse values beyond 31 bits (C19): not comparable
+			}
+			parts = append(parts, printDurExact(a.Step)+":"+printDurExact(a.Step*a.Points))
+		}
+		var e1, e2, e3 error
+		if pm := guard(func() { _, e1 = wt.NewHeader(wt.AggregationMethod(c.Method), xff, al) }); pm != "" {
+			add("newheader-panic", "NewHeader panicked: %s", pm)
+			return
+		}
+		got["NewHeader"] = e1 == nil
+		if printable {
+			if pm := guard(func() { _, e2 = wt.ParseArchiveInfoList(strings.Join(parts, ",")) }); pm != "" {
+				add("parse-panic", "ParseArchiveInfoList(%q) panicked: %s", strings.Join(parts, ","), pm)
+				return
+			}
+			got["ParseArchiveInfoList"] = e2 == nil
+		}
+		var was []WspArchive
+		off := int64(16 + 12*len(c.List))
+		for _, a := range c.List {
+			was = append(was, WspArchive{Offset: uint32(off), Step: uint32(a.Step), Points: uint32(a.Points)}) // every offset FIELD fits in the grey zone
+			off += 12 * a.Points
+		}
+		last := c.List[len(c.List)-1]
+		hb := EncodeWspHeader(uint32(c.Method), uint32(last.Step*last.Points), xff, was)
+		h2 := &wt.Header{}
+		if pm := guard(func() { _, e3 = h2.TakeFrom(hb) }); pm != "" {
+			add("takefrom-panic", "Header.TakeFrom panicked: %s", pm)
+			return
+		}
+		got["Header.TakeFrom"] = e3 == nil
+		for k, v := range got {
+			if v != got["NewHeader"] {
+				add("entry-points-disagree", "32-bit grey zone (no verdict of its own): NewHeader accepted=%v but %s accepted=%v (errors: %v / %v / %v)", got["NewHeader"], k, v, e1, e2, e3)
+				return
+			}
+		}
+		ev.Count(HashJSON(c), true, "Z3-grey-zone-entry-points-agree", "grey-accepted="+strconv.FormatBool(got["NewHeader"]))
 		return nil
 	}
 	wantOK := lv == Valid && methodOK && xffOK
